@@ -39,6 +39,7 @@ type schemaLoad struct {
 func loadSDL(sdl string) schemaLoad {
 	var l schemaLoad
 	l.root = ggql.NewRoot(nil)
+	core.Announce("Root.ParseString of:\n" + sdl)
 	l.pi = core.Safe(func() { l.err = l.root.ParseString(sdl) })
 	return l
 }
